@@ -3,7 +3,7 @@ import re
 
 NOCONST = object()
 
-_SIMPLE = ('none', 'bool', 'int', 'str', 'any', 'nestr')
+_SIMPLE = ('none', 'bool', 'int', 'str', 'any', 'nestr', 'estr')
 
 
 def parse_ty(s):
@@ -81,7 +81,7 @@ def ty_str(ty):
 
 
 def atom_kind(a):
-    if a == 'nestr':          # non-empty string (identifiers)
+    if a in ('nestr', 'estr'):   # non-empty string (identifiers) / the empty string (absent parent etc.)
         return 'str'
     return a if isinstance(a, str) else a[0]
 
